@@ -364,7 +364,7 @@ pub fn op_strategy(p: &Profile) -> BoxedStrategy<Op> {
     add(p.claim, (0u8..8, proptest::option::weighted(0.3, 0u8..6)).prop_map(|(u, to)| Op::Claim { u, to }).boxed());
     add(
         p.accrue,
-        (0u8..5, prop_oneof![4 => Just(0u8), 3 => Just(1u8), 1 => Just(2u8), 1 => Just(3u8)], amt_strategy())
+        (0u8..5, prop_oneof![4 => Just(0u8), 3 => Just(1u8), 1 => Just(2u8), 1 => Just(3u8), 1 => Just(4u8)], amt_strategy())
             .prop_map(|(v, coin, amt)| Op::Accrue { v, coin, amt })
             .boxed(),
     );
@@ -379,7 +379,7 @@ pub fn op_strategy(p: &Profile) -> BoxedStrategy<Op> {
     );
     add(
         p.donate,
-        (prop_oneof![3 => Just(0u8), 1 => Just(1u8), 1 => Just(2u8)], 0u8..4, amt_strategy())
+        (prop_oneof![3 => Just(0u8), 1 => Just(1u8), 1 => Just(2u8)], 0u8..5, amt_strategy())
             .prop_map(|(to, coin, amt)| Op::Donate { to, coin, amt })
             .boxed(),
     );
@@ -608,7 +608,7 @@ pub fn registry_scenario_strategy(p: &Profile, cfgs: BoxedStrategy<Cfg>) -> Boxe
 pub fn reward_scenario_strategy(p: &Profile, cfgs: BoxedStrategy<Cfg>) -> BoxedStrategy<History> {
     let round = (
         proptest::collection::vec(
-            (0u8..5, prop_oneof![4 => Just(0u8), 4 => Just(1u8), 1 => Just(2u8), 1 => Just(3u8)], amt_strategy()),
+            (0u8..5, prop_oneof![4 => Just(0u8), 4 => Just(1u8), 1 => Just(2u8), 1 => Just(3u8), 1 => Just(4u8)], amt_strategy()),
             1..5,
         ),
         proptest::collection::vec(op_strategy(p), 0..4),
@@ -858,7 +858,7 @@ impl Interp {
                     Some(x) => x,
                     None => return noop("accrue: hub has no delegation"),
                 };
-                let denom = [USEI, KUSD, UATOM, UJUNK][(*coin as usize).min(3)];
+                let denom = [USEI, KUSD, UATOM, UJUNK, UIBC][(*coin as usize).min(4)];
                 let mut amount = amt.resolve(1_000_000);
                 // envelope E1: keep every balance, pool and the reward index in range
                 if denom != UJUNK {
@@ -919,7 +919,7 @@ impl Interp {
             }
             Op::Donate { to, coin, amt } => {
                 let to = [HUB, REWARD, DISP][(*to as usize).min(2)];
-                let denom = [USEI, KUSD, UATOM, UJUNK][(*coin as usize).min(3)];
+                let denom = [USEI, KUSD, UATOM, UJUNK, UIBC][(*coin as usize).min(4)];
                 let mut amount = amt.resolve(1_000_000).min(E18 / 1000);
                 if to != HUB && denom != UJUNK {
                     amount = amount.min(self.reward_room(denom));
